@@ -141,7 +141,7 @@ CHECKS = {
     "C19": {
         "level": "exploration",
         "module": "harness_v2",
-        "rule": "normal-form histories (per version at most one Set or Remove per key; key-sorted in two thirds of the cases, arbitrary order otherwise; empty versions, shrink-to-empty, rewrites of identical values, removals of absent keys, bursts of 8-25 writes) of 1-10 versions x TreeOptions {CheckpointInterval 1,2,3,5,7,1000; CheckpointMemory off/1/300/3000 B (extra checkpoints where the interval would not place one); HeightFilter 0,1; EvictionDepth -1,0,1,2,8} x SqliteDbOptions {ShardTrees on/off}, leaf values stored, sqlite files on tmpfs. Three-way oracle at every commit: v2 SaveVersion hash == v1 MutableTree (MemDB) hash == reference; before and after each commit Get / Has (present and absent keys) / Size / Height and forward, inclusive and reverse iterators with bounds drawn from {nil, stored keys, extensions, prefixes, random} == versioned-map model. non-trivial = >=1 checkpoint and >=1 non-checkpoint commit, >=1 removal and >=1 rotation in the reference",
+        "rule": "normal-form histories (per version at most one Set or Remove per key; key-sorted in two thirds of the cases, arbitrary order otherwise; empty versions, shrink-to-empty, rewrites of identical values, removals of absent keys, bursts of 8-25 writes) of 1-10 versions x TreeOptions {CheckpointInterval 1,2,3,5,7,1000; CheckpointMemory off/1/300/3000 B (extra checkpoints where the interval would not place one); HeightFilter 0,1; EvictionDepth -1,0,1,2,8} x SqliteDbOptions {ShardTrees on/off}, leaf values stored, sqlite files on tmpfs; keys incl. 127/128/129/300-byte ones, values incl. 127/128/200/5000 B; in a third of the cases 1-2 commits are preceded by SetShouldCheckpoint() (a checkpoint where the interval would not place one). Three-way oracle at every commit: v2 SaveVersion hash == v1 MutableTree (MemDB) hash == reference; before and after each commit Get / Has (present and absent keys) / Size / Height and forward, inclusive and reverse iterators with bounds drawn from {nil, stored keys, extensions, prefixes, random} == versioned-map model (the iterator queries of a version run on the uncommitted working state as well as on the committed one). non-trivial = >=1 checkpoint and >=1 non-checkpoint commit, >=1 removal and >=1 rotation in the reference",
         "assumptions": _ASSUME + ["the return values of v2 Set/Remove are not asserted (the property does not state them)", "iterator bounds are nil or non-empty"],
         "quick": [{"test": "TestC19", "checks": 120, "shards": 8, "module": "harness_v2"}],
         "thorough": [{"test": "TestC19", "checks": 4000, "shards": 16, "module": "harness_v2"}],
@@ -149,7 +149,7 @@ CHECKS = {
     "C20": {
         "level": "exploration",
         "module": "harness_v2",
-        "rule": "C19 histories of 1-24 versions (CheckpointMemory only in cases without pruning), then Close; for EVERY retained target t the database is reopened and LoadVersion(t) must give the reference hash, Version()==t, size/height, Has/Get of every key and full forward + reverse iteration == model (targets on, just after and far after a checkpoint); at the latest version the history is continued for 0-3 versions and must return the reference hashes of the uninterrupted run; in a third of the cases DeleteVersionsTo(n) is issued mid-history (background pruning gets time, then Close + reopen): the latest version and every version at or above the last checkpoint not after n must load; in a quarter of the cases Tree.SaveSnapshot + LoadSnapshot (pre-order table) and an ingestion of the version's node stream (pre- or post-order, generated from the reference tree) through WriteSnapshot into a fresh database + LoadSnapshot must give the version's hash and contents. non-trivial = a target that is not a checkpoint (replay path) whose log since the checkpoint contains a removal",
+        "rule": "C19 histories of 1-24 versions (CheckpointMemory only in cases without pruning), then Close; for EVERY retained target t the database is reopened and LoadVersion(t) must give the reference hash, Version()==t, size/height, Has/Get of every key and full forward + reverse iteration == model (targets on, just after and far after a checkpoint); at the latest version the history is continued for 0-3 versions and must return the reference hashes of the uninterrupted run; in a third of the cases DeleteVersionsTo(n) is issued mid-history (background pruning gets time, then Close + reopen): the latest version and every version at or above the last checkpoint not after n must load; in a quarter of the cases Tree.SaveSnapshot + LoadSnapshot (pre-order table) and an ingestion of the version's node stream (pre- or post-order, generated from the reference tree) through WriteSnapshot into a fresh database + LoadSnapshot must give the version's hash and contents; for every reloaded non-empty version the node stream of Tree.Export in pre- AND post-order must equal the reference traversal (key, leaf value, node version, height), and in a third of the cases the real Export stream of one drawn reloaded version is piped into WriteSnapshot of a fresh database and loaded back (hash, contents, size); forced checkpoints (SetShouldCheckpoint) as in C19; in a third of the cases without pruning / snapshot a COPY of the closed database is rolled back to a drawn version with the library's rollback primitive (bare SqliteDb.Revert + Close, as cmd/rollback does), that version is loaded and the history continues with 1-4 OTHER versions: hashes and contents must be those of a history that ended there (model forked at the target), and every version of the new history must reload after close + reopen. non-trivial = a target that is not a checkpoint (replay path) whose log since the checkpoint contains a removal",
         "assumptions": _ASSUME + ["sqlite durability / fsync is not modelled", "SaveSnapshot of an empty tree returns an error and is not generated"],
         "quick": [{"test": "TestC20", "checks": 60, "shards": 8, "module": "harness_v2"}],
         "thorough": [{"test": "TestC20", "checks": 2500, "shards": 16, "module": "harness_v2"}],
